@@ -753,7 +753,7 @@ Lemma fetch_ok : forall n b c p vic b' out,
   PInv n b c -> b_fetch b p vic = (b', out) -> out <> BOBad ->
   memN p (c_dead c) && (pins_of c p =? 0) = false ->
   (pins_of c p =? 0) && negb (Nat.ltb (npinned c) n) = false ->
-  out <> BOPanic /\
+  (out = BONil \/ exists v, out = BOFetched v) /\
   (forall v, aget (c_spec c) p = Some v -> out = BOFetched v) /\
   PInv n b' (match out with BOFetched _ => c_fetch c p | _ => c end).
 Proof.
@@ -761,7 +761,7 @@ Proof.
   destruct (aget (ptable b) p) as [f|] eqn:Hp.
   - destruct (proj1 (s_pt _ _ _ S p f) Hp) as [fr [Hf Hpid]].
     rewrite fr_at_fat, Hf in H. inversion H; subst b' out; clear H. subst p.
-    split; [discriminate|]. split.
+    split; [right; eauto|]. split.
     + intros v Hs. f_equal. eapply (r_val _ _ R); eauto.
     + apply fetch_hit_inv; [split; assumption|assumption].
   - assert (Hp0 : pins_of c p = 0) by (eapply pins_nonres; eassumption).
@@ -775,7 +775,7 @@ Proof.
       pose proof (Hpt _ Hp) as Hp1.
       change (disk_read b1 p) with (dread (disk b1) (dsize b1) p) in H.
       destruct (dread (disk b1) (dsize b1) p) as [v|] eqn:Hrd.
-      * inversion H; subst b' out; clear H. split; [discriminate|]. split.
+      * inversion H; subst b' out; clear H. split; [right; eauto|]. split.
         -- intros w Hs. pose proof (r_disk _ _ R1 _ _ Hs Hp1). congruence.
         -- split.
            ++ apply fill_S; try assumption; try lia.
@@ -784,7 +784,7 @@ Proof.
               ** intros q Hq. split; [assumption|]. intros E. subst q.
                  apply Hc1. apply (r_reus_dead _ _ R1). assumption.
            ++ eapply fill_R_fetch; eassumption.
-      * inversion H; subst b' out; clear H. split; [discriminate|]. split.
+      * inversion H; subst b' out; clear H. split; [left; reflexivity|]. split.
         -- intros w Hs. pose proof (r_disk _ _ R1 _ _ Hs Hp1). congruence.
         -- split; [apply unfill_S; assumption|]. constructor; proj; apply R1.
     + exfalso. eapply take_frame_nopanic; eassumption.
@@ -837,4 +837,503 @@ Proof.
     + auto.
     + intros Hd. apply (r_dflag _ _ R _ _ Hf Hd).
     + intros _ Hz. exfalso. apply Hnz. exact Hz.
+Qed.
+
+(* ------------------------------------------------------------------ *)
+(** * UnpinPage *)
+
+Lemma unpin_inv : forall n b c f fr d,
+  PInv n b c -> fat (frames b) f = Some fr -> pins_of c (f_pid fr) <> 0 ->
+  memN (f_pid fr) (c_wrote c) && negb d = false ->
+  PInv n (upd_frame b f (mkF (f_pid fr) (f_pin fr - 1) (f_dirty fr || d) (f_dealloc fr) (f_val fr))
+            (if (f_pin fr - 1 <=? 0)%Z then (if memN f (repl b) then repl b else repl b ++ [f])
+             else repl b))
+         (mkC (aset (c_pins c) (f_pid fr) (pins_of c (f_pid fr) - 1))
+              (remove1 (f_pid fr) (c_wrote c))
+              (if (pins_of c (f_pid fr) - 1 =? 0) && memN (f_pid fr) (c_dead c)
+               then adel (c_spec c) (f_pid fr) else c_spec c)
+              (c_dead c)).
+Proof.
+  intros n b c f fr d [S R] Hf Hnz Hcw. unfold upd_frame.
+  pose proof (r_pin _ _ R _ _ Hf) as Hpin.
+  set (p := f_pid fr) in *.
+  assert (Hspec_p : forall v,
+    aget (if (pins_of c p - 1 =? 0) && memN p (c_dead c) then adel (c_spec c) p else c_spec c) p = Some v ->
+    aget (c_spec c) p = Some v).
+  { intros v H. destruct ((pins_of c p - 1 =? 0) && memN p (c_dead c)); [|assumption].
+    rewrite aget_adel_same in H. discriminate. }
+  split.
+  - eapply SInv_upd; try eassumption; fproj.
+    + reflexivity.
+    + destruct (Z.leb_spec (f_pin fr - 1) 0) as [L|L]; [|apply (s_repl_nd _ _ _ S)].
+      destruct (memN f (repl b)) eqn:Hm; [apply (s_repl_nd _ _ _ S)|].
+      apply NoDup_snoc; [apply (s_repl_nd _ _ _ S)|apply memN_false; assumption].
+    + intros g. destruct (Z.leb_spec (f_pin fr - 1) 0) as [L|L].
+      * destruct (memN f (repl b)) eqn:Hm.
+        -- destruct (N.eqb_spec g f) as [E|E]; [|tauto]. subst g.
+           apply memN_In in Hm. split; [lia|auto].
+        -- destruct (N.eqb_spec g f) as [E|E].
+           ++ subst g. split; [lia|]. intros _. apply In_snoc_same.
+           ++ apply In_snoc_neq. assumption.
+      * destruct (N.eqb_spec g f) as [E|E]; [|tauto]. subst g. split; [|lia].
+        intros H. apply (s_repl _ _ _ S) in H. destruct H as [fr0 [H1 H2]].
+        rewrite Hf in H1. inversion H1; subst fr0. lia.
+    + apply (s_dsize _ _ _ S).
+  - eapply RInv_upd; try eassumption; fproj; proj; fold p.
+    + reflexivity.
+    + rewrite pins_of_aset_same. lia.
+    + intros q Hq. apply pins_of_aset_other. congruence.
+    + intros q Hq. destruct ((pins_of c p - 1 =? 0) && memN p (c_dead c)); [|reflexivity].
+      apply aget_adel_other. congruence.
+    + intros v Hs. apply Hspec_p in Hs. eapply (r_val _ _ R); eauto.
+    + intros v Hs Hd Hw. apply Hspec_p in Hs.
+      apply orb_false_iff in Hd. destruct Hd as [Hd1 Hd2]. subst d.
+      cbn [negb] in Hcw. rewrite andb_true_r in Hcw. apply memN_false in Hcw.
+      eapply (r_clean _ _ R); eauto.
+    + auto.
+    + intros q Hq. assert (Hqp : q <> p).
+      { intros E. subst q. revert Hq. apply remove1_NoDup_notin. apply (r_wrote_nd _ _ R). }
+      rewrite pins_of_aset_other by congruence. apply (r_wrote _ _ R).
+      eapply In_remove1. eassumption.
+    + apply NoDup_remove1. apply (r_wrote_nd _ _ R).
+    + intros q Hq Hw. apply In_remove1_neq; assumption.
+    + auto.
+    + auto.
+    + intros Hd. apply (r_dflag _ _ R _ _ Hf Hd).
+    + intros Hd Hz. rewrite pins_of_aset_same in Hz. rewrite Hz. cbn [N.eqb].
+      apply memN_In in Hd. rewrite Hd. cbn [andb]. apply aget_adel_same.
+Qed.
+
+(* ------------------------------------------------------------------ *)
+(** * FlushPage / FlushAllPages *)
+
+Lemma flush_inv : forall n b c p, PInv n b c -> PInv n (fst (b_flush b p)) c.
+Proof.
+  intros n b c p [S R]. unfold b_flush.
+  destruct (aget (ptable b) p) as [f|] eqn:Hp; [|split; assumption].
+  destruct (proj1 (s_pt _ _ _ S p f) Hp) as [fr [Hf Hpid]].
+  rewrite fr_at_fat, Hf. unfold disk_write. cbn [fst]. subst p.
+  split.
+  - eapply SInv_upd; try eassumption; fproj.
+    + reflexivity.
+    + apply (s_repl_nd _ _ _ S).
+    + eapply repl_same; try eassumption. reflexivity.
+    + pose proof (s_dsize _ _ _ S). pose proof (s_next_res _ _ _ S _ _ Hf).
+      destruct (N.leb_spec (dsize b) (f_pid fr)); lia.
+  - eapply RInv_upd; try eassumption; fproj; proj.
+    + reflexivity.
+    + exact (r_pin _ _ R _ _ Hf).
+    + reflexivity.
+    + reflexivity.
+    + intros v Hs. eapply (r_val _ _ R); eauto.
+    + intros v Hs _ _. assert (Hv : f_val fr = v) by (eapply (r_val _ _ R); eauto).
+      rewrite Hv. apply dread_write_same.
+    + intros q w Hq H. apply dread_write_other; assumption.
+    + apply (r_wrote _ _ R).
+    + apply (r_wrote_nd _ _ R).
+    + auto.
+    + auto.
+    + auto.
+    + intros Hd. apply (r_dflag _ _ R _ _ Hf Hd).
+    + apply (r_dead _ _ R).
+Qed.
+
+Lemma flush_fold_inv : forall n c l b, PInv n b c ->
+  PInv n (fold_left (fun b p => fst (b_flush b p)) l b) c.
+Proof.
+  intros n c l; induction l as [|p l IH]; intros b H; cbn [fold_left].
+  - assumption.
+  - apply IH. apply flush_inv. assumption.
+Qed.
+
+(* ------------------------------------------------------------------ *)
+(** * Deallocation *)
+
+Lemma adel_Some : forall {A} (m : list (N * A)) p q v,
+  aget (adel m p) q = Some v -> q <> p /\ aget m q = Some v.
+Proof.
+  intros A m p q v H. destruct (N.eq_dec q p) as [E|E].
+  - subst q. rewrite aget_adel_same in H. discriminate.
+  - rewrite aget_adel_other in H by congruence. split; assumption.
+Qed.
+
+Lemma adel_None : forall {A} (m : list (N * A)) p q,
+  aget m q = None -> aget (adel m p) q = None.
+Proof.
+  intros A m p q H. destruct (N.eq_dec q p) as [E|E].
+  - subst q. apply aget_adel_same.
+  - rewrite aget_adel_other by congruence. assumption.
+Qed.
+
+Lemma flag_inv : forall n b c f fr,
+  PInv n b c -> fat (frames b) f = Some fr -> pins_of c (f_pid fr) <> 0 ->
+  PInv n (upd_frame b f (mkF (f_pid fr) (f_pin fr) (f_dirty fr) true (f_val fr)) (repl b))
+         (mkC (c_pins c) (c_wrote c) (c_spec c)
+              (if memN (f_pid fr) (c_dead c) then c_dead c else f_pid fr :: c_dead c)).
+Proof.
+  intros n b c f fr [S R] Hf Hnz. unfold upd_frame.
+  split.
+  - eapply SInv_upd; try eassumption; fproj.
+    + reflexivity.
+    + apply (s_repl_nd _ _ _ S).
+    + eapply repl_same; try eassumption. reflexivity.
+    + apply (s_dsize _ _ _ S).
+  - eapply RInv_upd; try eassumption; fproj; proj.
+    + reflexivity.
+    + exact (r_pin _ _ R _ _ Hf).
+    + reflexivity.
+    + reflexivity.
+    + intros w Hs. eapply (r_val _ _ R); eauto.
+    + intros w Hs Hd Hw. eapply (r_clean _ _ R); eauto.
+    + auto.
+    + exact (r_wrote _ _ R).
+    + apply (r_wrote_nd _ _ R).
+    + auto.
+    + intros q Hq. apply In_addN. right. assumption.
+    + intros q Hq H. apply In_addN in H. destruct H as [H|H]; [contradiction|assumption].
+    + intros _. apply In_addN. left. reflexivity.
+    + intros _ Hz. exfalso. apply Hnz. exact Hz.
+Qed.
+
+Lemma dealloc_nonres_inv : forall n b c p,
+  PInv n b c -> aget (ptable b) p = None ->
+  PInv n b (mkC (c_pins c) (c_wrote c) (adel (c_spec c) p)
+                (if memN p (c_dead c) then c_dead c else p :: c_dead c)).
+Proof.
+  intros n b c p [S R] Hp. split; [assumption|].
+  constructor; proj.
+  - exact (r_pin _ _ R).
+  - exact (r_pinres _ _ R).
+  - intros q v g fr Hs. apply adel_Some in Hs. destruct Hs as [_ Hs]. apply (r_val _ _ R). assumption.
+  - intros q v g fr Hs. apply adel_Some in Hs. destruct Hs as [_ Hs]. apply (r_clean _ _ R). assumption.
+  - intros q v Hs. apply adel_Some in Hs. destruct Hs as [_ Hs]. apply (r_disk _ _ R). assumption.
+  - exact (r_wrote _ _ R).
+  - exact (r_wrote_nd _ _ R).
+  - intros q Hq. apply adel_None. apply (r_reus_spec _ _ R). assumption.
+  - intros q Hq. apply In_addN. right. apply (r_reus_dead _ _ R). assumption.
+  - intros g fr H1 H2. apply In_addN. right. apply (r_dflag _ _ R _ _ H1 H2).
+  - intros q Hq Hz. apply In_addN in Hq. destruct Hq as [Hq|Hq].
+    + subst q. apply aget_adel_same.
+    + apply adel_None. apply (r_dead _ _ R); assumption.
+  - intros q v Hs. apply adel_Some in Hs. destruct Hs as [_ Hs]. eapply (r_next_spec _ _ R). eassumption.
+Qed.
+
+Lemma dealloc_res_inv : forall n b c f fr,
+  PInv n b c -> fat (frames b) f = Some fr -> f_pin fr = 0%Z ->
+  PInv n (mkB (set_fr (frames b) (N.to_nat f) None) (adel (ptable b) (f_pid fr)) (freel b ++ [f])
+              (remove1 f (repl b)) (reusable b ++ [f_pid fr]) (disk b) (dsize b) (next_pid b)
+              (locked b))
+         (mkC (c_pins c) (c_wrote c) (adel (c_spec c) (f_pid fr))
+              (if memN (f_pid fr) (c_dead c) then c_dead c else f_pid fr :: c_dead c)).
+Proof.
+  intros n b c f fr [S R] Hf Hpin.
+  pose proof (fat_lt _ _ _ Hf) as Hlt.
+  set (p := f_pid fr) in *.
+  assert (Hp : aget (ptable b) p = Some f) by (apply (s_pt _ _ _ S); eauto).
+  assert (Hp0 : pins_of c p = 0).
+  { pose proof (r_pin _ _ R _ _ Hf) as H. fold p in H. lia. }
+  assert (Hoth : forall g fr0, g <> f -> fat (frames b) g = Some fr0 -> f_pid fr0 <> p).
+  { intros g fr0 Hg H0 E. apply Hg. eapply res_unique; eauto. }
+  assert (Hfn : f < N.of_nat n) by (rewrite (s_len _ _ _ S) in Hlt; lia).
+  split.
+  - constructor; proj.
+    + rewrite length_set_fr. apply (s_len _ _ _ S).
+    + apply (s_lock _ _ _ S).
+    + intros q g. rewrite fat_set by assumption.
+      destruct (N.eq_dec q p) as [Eq|Eq].
+      * subst q. rewrite aget_adel_same. split; [discriminate|].
+        intros [fr0 [H1 H2]]. destruct (N.eqb_spec g f) as [E|E]; [discriminate|].
+        exfalso. eapply Hoth; eauto.
+      * rewrite aget_adel_other by congruence.
+        destruct (N.eqb_spec g f) as [E|E].
+        -- subst g. split.
+           ++ intros H. apply (s_pt _ _ _ S) in H. destruct H as [fr0 [H1 H2]].
+              exfalso. apply Eq. rewrite Hf in H1. inversion H1; subst fr0. symmetry; assumption.
+           ++ intros [fr0 [H1 _]]. discriminate.
+        -- apply (s_pt _ _ _ S).
+    + intros g. rewrite fat_set by assumption. destruct (N.eqb_spec g f) as [E|E].
+      * subst g. split.
+        -- intros _. repeat split; [assumption|discriminate].
+        -- intros _. apply In_snoc_same.
+      * rewrite In_snoc_neq by assumption. apply (s_free _ _ _ S).
+    + apply NoDup_snoc; [apply (s_free_nd _ _ _ S)|].
+      intros H. apply (s_free _ _ _ S) in H. destruct H as [_ [H _]]. congruence.
+    + intros g. rewrite fat_set by assumption. destruct (N.eqb_spec g f) as [E|E].
+      * subst g. split.
+        -- intros H. exfalso. revert H. apply remove1_NoDup_notin. apply (s_repl_nd _ _ _ S).
+        -- intros [fr0 [H1 _]]. discriminate.
+      * rewrite <- (s_repl _ _ _ S). split.
+        -- apply In_remove1.
+        -- apply In_remove1_neq. assumption.
+    + apply NoDup_remove1. apply (s_repl_nd _ _ _ S).
+    + intros q Hq. apply in_app_or in Hq. destruct Hq as [Hq|[Hq|[]]].
+      * apply adel_None. apply (s_reus _ _ _ S). assumption.
+      * subst q. apply aget_adel_same.
+    + apply NoDup_snoc; [apply (s_reus_nd _ _ _ S)|].
+      intros H. apply (s_reus _ _ _ S) in H. congruence.
+    + apply (s_dsize _ _ _ S).
+    + intros g fr0. rewrite fat_set by assumption. destruct (N.eqb_spec g f) as [E|E]; [discriminate|].
+      apply (s_next_res _ _ _ S).
+    + intros q Hq. apply in_app_or in Hq. destruct Hq as [Hq|[Hq|[]]].
+      * apply (s_next_reus _ _ _ S). assumption.
+      * subst q. eapply (s_next_res _ _ _ S). eassumption.
+  - constructor; proj.
+    + intros g fr0. rewrite fat_set by assumption. destruct (N.eqb_spec g f) as [E|E]; [discriminate|].
+      exact (r_pin _ _ R g fr0).
+    + intros q Hq. assert (Hqp : q <> p).
+      { intros E. subst q. change (0 < pins_of c p) in Hq. lia. }
+      rewrite aget_adel_other by congruence. exact (r_pinres _ _ R q Hq).
+    + intros q v g fr0 Hs. apply adel_Some in Hs. destruct Hs as [_ Hs].
+      rewrite fat_set by assumption. destruct (N.eqb_spec g f) as [E|E]; [discriminate|].
+      apply (r_val _ _ R). assumption.
+    + intros q v g fr0 Hs. apply adel_Some in Hs. destruct Hs as [_ Hs].
+      rewrite fat_set by assumption. destruct (N.eqb_spec g f) as [E|E]; [discriminate|].
+      apply (r_clean _ _ R). assumption.
+    + intros q v Hs Hq. apply adel_Some in Hs. destruct Hs as [Hqp Hs].
+      rewrite aget_adel_other in Hq by congruence. apply (r_disk _ _ R); assumption.
+    + exact (r_wrote _ _ R).
+    + exact (r_wrote_nd _ _ R).
+    + intros q Hq. apply in_app_or in Hq. destruct Hq as [Hq|[Hq|[]]].
+      * apply adel_None. apply (r_reus_spec _ _ R). assumption.
+      * subst q. apply aget_adel_same.
+    + intros q Hq. apply In_addN. apply in_app_or in Hq. destruct Hq as [Hq|[Hq|[]]].
+      * right. apply (r_reus_dead _ _ R). assumption.
+      * left. symmetry. assumption.
+    + intros g fr0. rewrite fat_set by assumption. destruct (N.eqb_spec g f) as [E|E]; [discriminate|].
+      intros H1 H2. apply In_addN. right. apply (r_dflag _ _ R _ _ H1 H2).
+    + intros q Hq Hz. apply In_addN in Hq. destruct Hq as [Hq|Hq].
+      * subst q. apply aget_adel_same.
+      * apply adel_None. apply (r_dead _ _ R); assumption.
+    + intros q v Hs. apply adel_Some in Hs. destruct Hs as [_ Hs].
+      eapply (r_next_spec _ _ R). eassumption.
+Qed.
+
+(* ------------------------------------------------------------------ *)
+(** * One step *)
+
+Ltac fin_out := split; [discriminate | split; [discriminate | intros ? HfinE; discriminate HfinE]].
+
+Lemma step_ok : forall n b c o b' c' out,
+  PInv n b c -> cstep n (b, c) o = Some (b', c', out) ->
+  PInv n b' c' /\ out <> BOPanic /\ out <> BOHang /\
+  (forall v, o = BNew v -> exists p, out = BONew p).
+Proof.
+  intros n b c o b' c' out HI H. pose proof HI as [S R].
+  unfold cstep, bstep in H. rewrite (s_lock _ _ _ S) in H.
+  destruct o as [vic|p vic|p v|p d|p| |p nw|p].
+  - (* BNew *)
+    destruct (b_new b vic) as [b2 out2] eqn:Hn.
+    assert (Hbad : out2 <> BOBad) by (intros E; subst out2; discriminate).
+    destruct (Nat.ltb (npinned c) n) eqn:Hlt; [|destruct out2; discriminate].
+    apply Nat.ltb_lt in Hlt.
+    destruct (new_ok _ _ _ _ _ _ HI Hlt Hn Hbad) as [p [E [HI' _]]]. subst out2.
+    cbv beta iota zeta in H. inversion H; subst b' c' out; clear H.
+    split; [exact HI'|]. split; [discriminate|]. split; [discriminate|].
+    intros _ _. eauto.
+  - (* BFetch *)
+    destruct (b_fetch b p vic) as [b2 out2] eqn:Hn.
+    assert (Hbad : out2 <> BOBad) by (intros E; subst out2; discriminate).
+    destruct (memN p (c_dead c) && (pins_of c p =? 0)) eqn:Hc1; [destruct out2; discriminate|].
+    destruct ((pins_of c p =? 0) && negb (Nat.ltb (npinned c) n)) eqn:Hc2; [destruct out2; discriminate|].
+    destruct (fetch_ok _ _ _ _ _ _ _ HI Hn Hbad Hc1 Hc2) as [Hnp [_ HI']].
+    destruct Hnp as [E|[w E]]; subst out2;
+      cbv beta iota zeta in H; inversion H; subst b' c' out; clear H;
+      (split; [exact HI'|fin_out]).
+  - (* BWrite *)
+    destruct (b_write b p v) as [b2 out2] eqn:Hw. unfold b_write in Hw.
+    destruct (aget (ptable b) p) as [f|] eqn:Hp; [|inversion Hw; subst out2; discriminate].
+    destruct (proj1 (s_pt _ _ _ S p f) Hp) as [fr [Hf Hpid]].
+    rewrite fr_at_fat, Hf in Hw. inversion Hw; subst b2 out2; clear Hw.
+    cbv beta iota zeta in H.
+    destruct (N.eqb_spec (pins_of c p) 0) as [E|E]; [discriminate|].
+    inversion H; subst b' c' out; clear H. subst p.
+    split; [apply write_inv; assumption|fin_out].
+  - (* BUnpin *)
+    destruct (b_unpin b p d) as [b2 out2] eqn:Hw. unfold b_unpin in Hw.
+    destruct (aget (ptable b) p) as [f|] eqn:Hp.
+    + destruct (proj1 (s_pt _ _ _ S p f) Hp) as [fr [Hf Hpid]].
+      rewrite fr_at_fat, Hf in Hw. cbv zeta in Hw.
+      pose proof (r_pin _ _ R _ _ Hf) as Hpin. rewrite Hpid in Hpin.
+      destruct (Z.ltb_spec (f_pin fr - 1) 0) as [L|L].
+      * inversion Hw; subst b2 out2; clear Hw. cbv beta iota zeta in H.
+        destruct (N.eqb_spec (pins_of c p) 0) as [E|E]; [discriminate|]. lia.
+      * inversion Hw; subst b2 out2; clear Hw. cbv beta iota zeta in H.
+        destruct (N.eqb_spec (pins_of c p) 0) as [E|E]; [discriminate|].
+        destruct (memN p (c_wrote c) && negb d) eqn:Hcw; [discriminate|].
+        inversion H; subst b' c' out; clear H. subst p.
+        split; [apply unpin_inv; assumption|fin_out].
+    + inversion Hw; subst b2 out2; clear Hw. cbv beta iota zeta in H.
+      rewrite (pins_nonres _ _ _ R Hp) in H. cbn [N.eqb] in H. discriminate.
+  - (* BFlush *)
+    pose proof (flush_inv n b c p HI) as HI'.
+    destruct (b_flush b p) as [b2 out2] eqn:Hw. cbn [fst] in HI'.
+    assert (Ho : out2 = BOOk \/ out2 = BOFalse \/ out2 = BOBad).
+    { unfold b_flush in Hw. destruct (aget (ptable b) p) as [f0|]; [destruct (fr_at b f0)|];
+        unfold disk_write in Hw; cbv beta iota zeta in Hw; inversion Hw; auto. }
+    destruct Ho as [Ho|[Ho|Ho]]; subst out2; cbv beta iota zeta in H; [| |discriminate];
+      inversion H; subst b' c' out; clear H; (split; [exact HI'|fin_out]).
+  - (* BFlushAll *)
+    unfold b_flush_all in H. cbv beta iota zeta in H.
+    inversion H; subst b' c' out; clear H.
+    split; [apply flush_fold_inv; assumption|fin_out].
+  - (* BDealloc *)
+    destruct (b_dealloc b p nw) as [b2 out2] eqn:Hw. unfold b_dealloc in Hw.
+    destruct nw; cbn [negb] in Hw, H.
+    + destruct (aget (ptable b) p) as [f|] eqn:Hp.
+      * destruct (proj1 (s_pt _ _ _ S p f) Hp) as [fr [Hf Hpid]].
+        rewrite fr_at_fat, Hf in Hw.
+        pose proof (r_pin _ _ R _ _ Hf) as Hpin. rewrite Hpid in Hpin.
+        destruct (Z.eqb_spec (f_pin fr) 0) as [Z0|Z0].
+        -- inversion Hw; subst b2 out2; clear Hw. cbv beta iota zeta in H.
+           destruct (N.eqb_spec (pins_of c p) 0) as [E|E]; [|lia].
+           inversion H; subst b' c' out; clear H. subst p.
+           split; [apply dealloc_res_inv; assumption|fin_out].
+        -- inversion Hw; subst b2 out2; clear Hw. cbv beta iota zeta in H.
+           destruct (N.eqb_spec (pins_of c p) 0) as [E|E]; [lia|].
+           inversion H; subst b' c' out; clear H. subst p.
+           split; [apply flag_inv; assumption|fin_out].
+      * inversion Hw; subst b2 out2; clear Hw. cbv beta iota zeta in H.
+        rewrite (pins_nonres _ _ _ R Hp) in H. cbn [N.eqb] in H.
+        inversion H; subst b' c' out; clear H.
+        split; [apply dealloc_nonres_inv; assumption|fin_out].
+    + inversion Hw; subst b2 out2; clear Hw. cbv beta iota zeta in H.
+      inversion H; subst b' c' out; clear H.
+      split; [assumption|fin_out].
+  - (* BMarkDealloc *)
+    destruct (b_mark_dealloc b p) as [b2 out2] eqn:Hw. unfold b_mark_dealloc in Hw.
+    destruct (aget (ptable b) p) as [f|] eqn:Hp; [|inversion Hw; subst out2; discriminate].
+    destruct (proj1 (s_pt _ _ _ S p f) Hp) as [fr [Hf Hpid]].
+    rewrite fr_at_fat, Hf in Hw. inversion Hw; subst b2 out2; clear Hw.
+    cbv beta iota zeta in H.
+    destruct (N.eqb_spec (pins_of c p) 0) as [E|E]; [discriminate|].
+    inversion H; subst b' c' out; clear H. subst p.
+    split; [apply flag_inv; assumption|fin_out].
+Qed.
+
+(* ------------------------------------------------------------------ *)
+(** * Whole histories *)
+
+Lemma run_inv : forall n ops b c b' c' outs,
+  PInv n b c -> crun n (b, c) ops = Some (b', c', outs) -> PInv n b' c'.
+Proof.
+  intros n ops; induction ops as [|o rest IH]; intros b c b' c' outs HI H; cbn [crun] in H.
+  - cbn [fst snd] in H. inversion H; subst; assumption.
+  - destruct (cstep n (b, c) o) as [[[b1 c1] out]|] eqn:Hs; [|discriminate].
+    destruct (crun n (b1, c1) rest) as [[[b2 c2] outs2]|] eqn:Hr; [|discriminate].
+    inversion H; subst b2 c2 outs; clear H.
+    eapply IH; [|eassumption].
+    eapply step_ok; eassumption.
+Qed.
+
+Lemma reach_inv : forall n b c,
+  (exists ops outs, crun n (binit n, cinit) ops = Some (b, c, outs)) -> PInv n b c.
+Proof.
+  intros n b c [ops [outs H]]. eapply run_inv; [apply PInv_init|eassumption].
+Qed.
+
+(* ------------------------------------------------------------------ *)
+(** * The results used by Props/C13.v *)
+
+Lemma fetch_latest : forall n b c p vic v, (0 < n)%nat ->
+  (exists ops outs, crun n (binit n, cinit) ops = Some (b, c, outs)) ->
+  aget (c_spec c) p = Some v ->
+  forall b' c' out, cstep n (b, c) (BFetch p vic) = Some (b', c', out) -> out = BOFetched v.
+Proof.
+  intros n b c p vic v _ Hreach Hs b' c' out H.
+  pose proof (reach_inv _ _ _ Hreach) as HI. pose proof HI as [S R].
+  unfold cstep, bstep in H. rewrite (s_lock _ _ _ S) in H.
+  destruct (b_fetch b p vic) as [b2 out2] eqn:Hn.
+  assert (Hbad : out2 <> BOBad) by (intros E; subst out2; discriminate).
+  destruct (memN p (c_dead c) && (pins_of c p =? 0)) eqn:Hc1; [destruct out2; discriminate|].
+  destruct ((pins_of c p =? 0) && negb (Nat.ltb (npinned c) n)) eqn:Hc2; [destruct out2; discriminate|].
+  destruct (fetch_ok _ _ _ _ _ _ _ HI Hn Hbad Hc1 Hc2) as [_ [Hv _]].
+  pose proof (Hv _ Hs) as E. subst out2. cbv beta iota zeta in H.
+  inversion H; reflexivity.
+Qed.
+
+Lemma no_panic : forall n b c o b' c' out, (0 < n)%nat ->
+  (exists ops outs, crun n (binit n, cinit) ops = Some (b, c, outs)) ->
+  cstep n (b, c) o = Some (b', c', out) ->
+  out <> BOPanic /\ out <> BOHang /\
+  (forall v, o = BNew v -> exists p, out = BONew p).
+Proof.
+  intros n b c o b' c' out _ Hreach H.
+  pose proof (reach_inv _ _ _ Hreach) as HI.
+  destruct (step_ok _ _ _ _ _ _ _ HI H) as [_ Hrest]. exact Hrest.
+Qed.
+
+Lemma pinned_resident : forall n b c p, (0 < n)%nat ->
+  (exists ops outs, crun n (binit n, cinit) ops = Some (b, c, outs)) ->
+  0 < pins_of c p ->
+  exists f fr, aget (ptable b) p = Some f /\ fr_at b f = Some fr /\ f_pid fr = p /\
+               f_pin fr = Z.of_N (pins_of c p) /\
+               (forall v, aget (c_spec c) p = Some v -> f_val fr = v) /\
+               (forall g fr', fr_at b g = Some fr' -> f_pid fr' = p -> g = f).
+Proof.
+  intros n b c p _ Hreach Hp.
+  pose proof (reach_inv _ _ _ Hreach) as [S R].
+  destruct (r_pinres _ _ R p Hp) as [f Hf].
+  destruct (proj1 (s_pt _ _ _ S p f) Hf) as [fr [Hfr Hpid]].
+  exists f, fr.
+  split; [assumption|]. split; [exact Hfr|]. split; [assumption|]. split.
+  - rewrite <- Hpid. apply (r_pin _ _ R _ _ Hfr).
+  - split.
+    + intros v Hs. eapply (r_val _ _ R); eauto.
+    + intros g fr' Hg Hpid'. eapply res_unique; [exact S|exact Hg|exact Hfr|congruence].
+Qed.
+
+Lemma frames_unique : forall n b c, (0 < n)%nat ->
+  (exists ops outs, crun n (binit n, cinit) ops = Some (b, c, outs)) ->
+  (forall f g fr fr', fr_at b f = Some fr -> fr_at b g = Some fr' -> f_pid fr = f_pid fr' -> f = g) /\
+  (forall f, In f (repl b) -> exists fr, fr_at b f = Some fr /\ f_pin fr = 0%Z) /\
+  locked b = false.
+Proof.
+  intros n b c _ Hreach.
+  pose proof (reach_inv _ _ _ Hreach) as [S R].
+  split; [|split].
+  - intros f g fr fr' Hf Hg E. eapply res_unique; [exact S|exact Hf|exact Hg|exact E].
+  - intros f Hf. apply (s_repl _ _ _ S) in Hf. exact Hf.
+  - apply (s_lock _ _ _ S).
+Qed.
+
+(** [new_fresh] as stated in Props/C13.v (third conjunct [aget (ptable b) p = None])
+    does NOT hold for the model: when the free list is empty and the victim frame
+    holds an unpinned page flagged deallocated, take_frame appends that page id to
+    the reusable list and NewPage may hand it out immediately, while it is still in
+    the page table of the pre-state.  What holds is the following. *)
+Lemma new_fresh_partial : forall n b c vic b' c' p, (0 < n)%nat ->
+  (exists ops outs, crun n (binit n, cinit) ops = Some (b, c, outs)) ->
+  cstep n (b, c) (BNew vic) = Some (b', c', BONew p) ->
+  pins_of c p = 0 /\ aget (c_spec c) p = None /\
+  (aget (ptable b) p = None \/
+   (freel b = [] /\ aget (ptable b) p = Some vic /\
+    exists fr, fr_at b vic = Some fr /\ f_pin fr = 0%Z /\ f_dealloc fr = true)).
+Proof.
+  intros n b c vic b' c' p _ Hreach H.
+  pose proof (reach_inv _ _ _ Hreach) as HI. pose proof HI as [S R].
+  unfold cstep, bstep in H. rewrite (s_lock _ _ _ S) in H.
+  destruct (b_new b vic) as [b2 out2] eqn:Hn.
+  assert (Hbad : out2 <> BOBad) by (intros E; subst out2; discriminate).
+  destruct (Nat.ltb (npinned c) n) eqn:Hlt; [|destruct out2; discriminate].
+  apply Nat.ltb_lt in Hlt.
+  destruct (new_ok _ _ _ _ _ _ HI Hlt Hn Hbad) as [q [E [_ [H1 [H2 H3]]]]]. subst out2.
+  cbv beta iota zeta in H. inversion H; subst. 
+  split; [assumption|]. split; [assumption|]. exact H3.
+Qed.
+
+Lemma new_fresh_refuted :
+  exists n b c vic b' c' p, (0 < n)%nat /\
+    (exists ops outs, crun n (binit n, cinit) ops = Some (b, c, outs)) /\
+    cstep n (b, c) (BNew vic) = Some (b', c', BONew p) /\
+    aget (ptable b) p <> None.
+Proof.
+  destruct (crun 1 (binit 1, cinit) [BNew 0; BMarkDealloc 0; BUnpin 0 false])
+    as [[[b c] outs]|] eqn:E; [|vm_compute in E; discriminate].
+  destruct (cstep 1 (b, c) (BNew 0)) as [[[b' c'] out]|] eqn:E2.
+  2:{ vm_compute in E. inversion E; subst. vm_compute in E2. discriminate. }
+  exists 1%nat, b, c, 0, b', c', 0.
+  split; [constructor|]. split; [eauto|].
+  vm_compute in E. inversion E; subst b c outs; clear E.
+  vm_compute in E2. inversion E2; subst b' c' out; clear E2.
+  split; [vm_compute; reflexivity|]. vm_compute. discriminate.
 Qed.
